@@ -100,6 +100,8 @@ class Evaluator:
         self.seq = 0
         self.models = models or {}
         self.macro_hooks = macro_hooks or {}
+        self.varnames = {}
+        self.unroll = False
 
     # ------------------------------------------------------------------ helpers
     def fresh(self):
@@ -231,8 +233,17 @@ class Evaluator:
     def ev_static(self, n, st, fp):
         return [(("obj", "static:" + norm_path(n["path"]), n["ty"]), st)]
 
+    def lookup_name(self, st, name):
+        """value of the innermost live binding called `name` (used by the format! model)"""
+        best = None
+        for key, nm in self.varnames.items():
+            if nm == name and key in st.env and (best is None or key[1] > best[1]):
+                best = key
+        return st.env.get(best) if best else None
+
     def ev_var(self, n, st, fp):
         key = (self.owner_of(fp), n["id"])
+        self.varnames[key] = n["name"]
         if key in st.env:
             return [(st.env[key], st)]
         # a variable never bound by this evaluation: free symbol (e.g. outer loop state)
@@ -338,6 +349,23 @@ class Evaluator:
         """loops are not unrolled: variables assigned in the body become fresh symbols and the loop
         is recorded as an effect (callers that care evaluate the body separately)"""
         from facts import walk
+        if self.unroll:
+            cur, ok = st, True
+            for _ in range(400):
+                outs = [(v, s2) for v, s2 in self.ev(n["body"], cur, fp) if s2.feasible]
+                if len(outs) != 1:
+                    ok = False
+                    break
+                s2 = outs[0][1]
+                if s2.exit is None or s2.exit[0] == "continue":
+                    cur = s2.fork(exit=None)
+                    continue
+                if s2.exit[0] == "break":
+                    return [(UNIT, s2.fork(exit=None))]
+                return [(UNIT, s2)]          # return / panic inside the loop
+            else:
+                ok = False
+            # not a concretely evaluable loop: fall through to the summary
         owner = self.owner_of(fp)
         for x in walk(n["body"]):
             if x.get("k") in ("assign", "assignop"):
@@ -472,6 +500,7 @@ class Evaluator:
         if k == "wild":
             return T.TRUE, st
         if k == "bind":
+            self.varnames[(self.owner_of(fp), p["id"])] = p["name"]
             st2 = st.set((self.owner_of(fp), p["id"]), v)
             if p.get("sub") is not None:
                 return self.bind_pat(p["sub"], v, st2, fp)
@@ -496,11 +525,18 @@ class Evaluator:
             return None
         if k == "or":
             acc = T.FALSE
+            binds = False
             for q in p["pats"]:
                 r = self.bind_pat(q, v, st, fp)
                 if r is None:
                     return None
+                if r[0] == T.TRUE:
+                    return r
+                if r[1].env is not st.env and r[0] != T.FALSE:
+                    binds = True
                 acc = T.lor(acc, r[0])
+            if binds and acc != T.FALSE:
+                return None     # alternatives with bindings and a symbolic choice: outside the theory
             return acc, st
         if k == "leaf":
             cond = T.TRUE
@@ -568,9 +604,14 @@ class Evaluator:
             return out
         if k == "deref":
             out = []
+            ety = (strip_node(n["e"]).get("ty") or "")
             for v, s in self.ev(n["e"], st, fp):
                 if isinstance(v, tuple) and v and v[0] == "ref":
                     out.append((v[1], s))
+                elif ety.startswith("&") and not (isinstance(v, tuple) and v and v[0] == "ref"):
+                    # a safe reference: transparent (the referent's value)
+                    key = ("tmp", self.fresh())
+                    out.append((("pv", key), s.set(key, v)))
                 elif isinstance(v, tuple) and v and (v[0] in ("struct", "obj", "array", "upd", "updf", "clo", "fnitem", "lit", "subslice", "objat") or _w(v) != 64):
                     # shared references are transparent: the "pointer" is the value itself
                     key = ("tmp", self.fresh())
@@ -1276,3 +1317,191 @@ def m_slice_index(ev, vals, n, s, path, gens):
     if isinstance(rg, tuple) and rg and rg[0] == "struct" and rg[1].endswith("RangeFrom"):
         return [(("subslice", base, sfield(rg, "start")), s)]
     return None
+
+
+# ---------------------------------------------------------------- concrete containers / iteration / formatting
+@suffix_model(r"IntoIterator>::into_iter$|IntoIterator for &'a \[T; N\]>::into_iter$|IntoIterator for &'a \[T\]>::into_iter$|slice::<impl \[T\]>::iter$")
+def m_into_iter_array(ev, vals, n, s, path, gens):
+    v = ev.deref_val(vals[0], s)
+    if isinstance(v, tuple) and v and v[0] == "array":
+        return [(("iterc", v[1], 0), s)]
+    if isinstance(v, tuple) and v and v[0] == "struct" and v[1].endswith("ops::Range"):
+        a, b = sfield(v, "start"), sfield(v, "end")
+        if T.is_k(a) and T.is_k(b) and b[2] - a[2] <= 400:
+            return [(("iterc", tuple(T.K(a[1], i) for i in range(a[2], b[2])), 0), s)]
+    return [(v, s)]
+
+
+SUFFIX_MODELS.insert(0, SUFFIX_MODELS.pop())   # takes precedence over the generic into_iter identity
+
+
+def m_iter_next(ev, n, st, fp, path, gens):
+    """Iterator::next(&mut it) on a concrete iterator value"""
+    out = []
+    for p, s in ev.ev_place(n["args"][0], st, fp):
+        if p[0] == "pv" and isinstance(s.env.get(p[1]), tuple) and s.env[p[1]] and s.env[p[1]][0] == "ref":
+            p = s.env[p[1]][1]
+        cur = ev.read_place(p, s)
+        if isinstance(cur, tuple) and cur and cur[0] == "ref":
+            p = cur[1]
+            cur = ev.read_place(p, s)
+        if isinstance(cur, tuple) and cur and cur[0] == "iterc":
+            items, pos = cur[1], cur[2]
+            if pos < len(items):
+                out.append((some(items[pos]), ev.write_place(p, ("iterc", items, pos + 1), s)))
+            else:
+                out.append((NONE, s))
+        else:
+            w = ev.bits(n["ty"])
+            r = ("obj", "next#%d" % ev.fresh(), n["ty"])
+            out.append((r, s.effect(("call", path, (cur,), r))))
+    return out
+
+
+m_iter_next.wants_nodes = True
+SUFFIX_MODELS.insert(0, (re.compile(r"iter::Iterator>::next$|iter::Iterator::next$"), m_iter_next))
+
+
+@suffix_model(r"HashMap<K, V>::new$|HashMap<K, V, S>::default$|BTreeMap<K, V>::new$")
+def m_map_new(ev, vals, n, s, path, gens):
+    return [(("map", ()), s)]
+
+
+def m_map_insert(ev, n, st, fp, path, gens):
+    out = []
+    for p, s in ev.ev_place(n["args"][0], st, fp):
+        cur = ev.read_place(p, s)
+        if isinstance(cur, tuple) and cur and cur[0] == "ref":
+            p = cur[1]
+            cur = ev.read_place(p, s)
+        for vals, s2 in ev.seq_ev(n["args"][1:], s, fp):
+            if isinstance(cur, tuple) and cur and cur[0] == "map":
+                k, v = vals[0], vals[1]
+                items = tuple(kv for kv in cur[1] if kv[0] != k) + ((k, v),)
+                out.append((("obj", "insert-result", n["ty"]), ev.write_place(p, ("map", items), s2)))
+            else:
+                r = ("obj", "insert#%d" % ev.fresh(), n["ty"])
+                out.append((r, s2.effect(("call", path, (cur,) + tuple(vals), r))))
+    return out
+
+
+m_map_insert.wants_nodes = True
+SUFFIX_MODELS.insert(0, (re.compile(r"HashMap<K, V, S, A>::insert$|BTreeMap<K, V, A>::insert$"), m_map_insert))
+
+
+@suffix_model(r"HashMap<K, V, S, A>::get$")
+def m_map_get(ev, vals, n, s, path, gens):
+    m, k = ev.deref_val(vals[0], s), ev.deref_val(vals[1], s)
+    if isinstance(m, tuple) and m and m[0] == "map" and isinstance(k, tuple) and k and k[0] == "lit":
+        for kk, vv in m[1]:
+            if kk == k:
+                return [(some(vv), s)]
+        return [(NONE, s)]
+    return None
+
+
+@suffix_model(r"string::ToString>::to_string$|ToString::to_string$|String::as_str$|string::String as core::ops::Deref>::deref$|str::<impl str>::to_string$|String::from$")
+def m_to_string(ev, vals, n, s, path, gens):
+    v = ev.deref_val(vals[0], s)
+    if isinstance(v, tuple) and v and v[0] in ("lit", "fmt"):
+        return [(v, s)]
+    return None
+
+
+SUFFIX_MODELS.insert(0, SUFFIX_MODELS.pop())
+
+
+@suffix_model(r"^core::fmt::rt::Argument<'_>::new_(display|debug|lower_hex|upper_hex)$|^core::fmt::rt::Argument::new_(display|debug|lower_hex|upper_hex)$")
+def m_fmt_arg(ev, vals, n, s, path, gens):
+    kind = path.rsplit("_", 1)[-1] if not path.endswith("lower_hex") else "lower_hex"
+    kind = "display" if path.endswith("new_display") else "debug" if path.endswith("new_debug") else "lower_hex" if path.endswith("lower_hex") else "upper_hex"
+    return [(("fmtarg", kind, ev.deref_val(vals[0], s), gens[0] if gens else None), s)]
+
+
+SUFFIX_MODELS.insert(0, SUFFIX_MODELS.pop())
+
+_FMT_RE = re.compile(r'''^\s*(?:\w+::)*(?:format|panic|println|write|warn|info)!\s*\(\s*"((?:[^"\\]|\\.)*)"''', re.S)
+_HOLE = re.compile(r"\{\{|\}\}|\{([^{}:]*)(?::([^{}]*))?\}")
+
+
+def m_format(ev, vals, n, s, path, gens):
+    """alloc::fmt::format(Arguments): rebuild the text from the macro call-site snippet.  Pieces are
+    literal strings or ('arg', spec, value, type)"""
+    snip = n.get("snip") or ""
+    m = _FMT_RE.match(snip)
+    if not m:
+        return [(("obj", "fmt", n["ty"]), s)]
+    tmpl = m.group(1).encode().decode("unicode_escape") if "\\" in m.group(1) else m.group(1)
+    args = []
+    fa = vals[0] if vals else None
+    # positional arguments: the fmtarg values inside the Arguments::new(...) argument array
+    def collect(v):
+        if isinstance(v, tuple) and v:
+            if v[0] == "fmtarg":
+                args.append(v)
+                return
+            for x in v:
+                if isinstance(x, tuple):
+                    collect(x)
+    collect(fa)
+    # rustc lowers format_args! to an array with one entry per distinct (argument, trait) pair in
+    # order of first use in the template
+    pieces, pos, last = [], 0, 0
+    slot = {}
+    for h in _HOLE.finditer(tmpl):
+        pieces.append(tmpl[last:h.start()])
+        last = h.end()
+        if h.group(0) in ("{{", "}}"):
+            pieces.append(h.group(0)[0])
+            continue
+        name, spec = h.group(1) or "", h.group(2) or ""
+        if name == "":
+            name = str(pos)
+            pos += 1
+        trait = "x" if spec.endswith("x") else "X" if spec.endswith("X") else "?" if spec.endswith("?") else ""
+        key = (name, trait)
+        if key not in slot:
+            slot[key] = len(slot)
+        i = slot[key]
+        pieces.append(("hole", spec, args[i] if i < len(args) else None))
+    pieces.append(tmpl[last:])
+    out = []
+    for pc in pieces:
+        if isinstance(pc, str):
+            if pc:
+                out.append(pc)
+            continue
+        _, spec, v = pc
+        if v is None:
+            out.append(("arg", spec, ("opaque", "fmt-arg", 0), None))
+            continue
+        _k, kind, value, ty = v
+        if isinstance(value, tuple) and value and value[0] == "lit" and spec in ("", "?"):
+            out.append(str(value[1]) if spec == "" else repr(value[1]))
+        elif isinstance(value, tuple) and value and value[0] == "fmt" and spec == "":
+            out.extend(value[1])
+        elif isinstance(value, tuple) and T.is_k(value) and spec == "":
+            sv = T.sval(value) if (ty or "").startswith("i") else value[2]
+            out.append(str(sv))
+        else:
+            out.append(("arg", spec, value, ty))
+    merged = []
+    for x in out:
+        if isinstance(x, str) and merged and isinstance(merged[-1], str):
+            merged[-1] += x
+        else:
+            merged.append(x)
+    if all(isinstance(x, str) for x in merged):
+        return [(("lit", "".join(merged)), s)]
+    return [(("fmt", tuple(merged)), s)]
+
+
+MODELS["core::fmt::format"] = m_format
+
+
+@suffix_model(r"fmt::Arguments(<'\w+>)?::new(_const|_v1|_v1_formatted)?$")
+def m_fmt_arguments(ev, vals, n, s, path, gens):
+    return [(("fmtargs",) + tuple(ev.deref_val(v, s) for v in vals), s)]
+
+
+SUFFIX_MODELS.insert(0, SUFFIX_MODELS.pop())
